@@ -193,6 +193,10 @@ def c03(tier, seed):
     em = env_check.env_model("lots-spaces", env_check.G[:n], cs, range(1, n + 1), 0, [0], [props_env.FOLD_ALL], [(False, -1)],
                              delays=(0, 1), spaces=("boxlots", "disclots"), maxcalls=n, reset_anywhere=False, trade=True)
     env_check.run_models(rep, [em], {"allocation", "lots_reached"})
+    # a futures chain listed next to later contracts of the same chain (EnvFull.tla): after the roll the chain's target is
+    # reached in its lead although that contract is also listed, with a zero of its own
+    from . import envfull_check
+    envfull_check.run_models(rep, [envfull_check.chain_members_model()], {"pos", "track_trades"})
     return rep.finish()
 
 
